@@ -40,10 +40,11 @@ class VEnum:
 class VObj:
     """abstract instance of a dataclass / NamedTuple"""
 
-    def __init__(self, cls: str, kind: str, fields: Dict[str, Any], present=None, noinit=()):
+    def __init__(self, cls: str, kind: str, fields: Dict[str, Any], present=None, noinit=(), ctor=None):
         self.cls = cls
         self.kind = kind
         self.fields = fields
+        self.ctor = ctor  # constructor arguments when they differ from the final field values (__post_init__ effects)
         self.present = present  # names of fields present in the datum (for fields_set)
         self.noinit = set(noinit)  # fields that are not constructor parameters
 
@@ -838,11 +839,23 @@ def _obj(o: Obj, d, ctx: Ctx, cons):
             full[f.name] = MISSING
     for target, source in o.post_assign:
         full[target] = values[source] if source in values else MISSING
+
+    def effects(ob):
+        for b in ob.bases:
+            if b in ctx.env:
+                yield from effects(ctx.env[b])
+        yield from ob.post_effects
+
+    ctor = None
+    for target, fn in effects(o):
+        if ctor is None:
+            ctor = dict(full)
+        full[target] = fn(full)
     # InitVar fields are consumed by __post_init__, not stored
     for f in all_fields(o, ctx):
         if f.initvar:
             full.pop(f.name, None)
-    return VObj(o.name, o.kind, full, present, {f.name for f in all_fields(o, ctx) if not f.init})
+    return VObj(o.name, o.kind, full, present, {f.name for f in all_fields(o, ctx) if not f.init}, ctor)
 
 
 class _Missing:
